@@ -934,3 +934,176 @@ class RlaStepSubset(Family):
             for v in itertools.product((1, 2), repeat=nn):
                 for st in (1, 2, 3, 4, 7, -1, -2, -3, -5):
                     yield {"a": list(v), "step": st}
+
+
+@register
+class RlaBinaryMerge(Family):
+    """_apply_binary_func(first, other, U) for two canonical arrays of the same length N: every position p, lying in run a of `first`
+    and run b of `other`, lies in exactly one output run, whose value is U(first.values[a], other.values[b]) (operand order!) up to
+    numpy == (join_runs merges ==-equal neighbours); the result is canonical with length N; operands untouched.
+    remove_empty_intervals and join_runs enter through their proved contracts."""
+    name = "RunLengthArray._apply_binary_func"
+    qualname = "npstructures.runlengtharray:RunLengthArray._apply_binary_func"
+    serves = ["C16"]
+    timeout_ms = 60000
+    assumed = ["numpy.searchsorted(side='right') with an array of needles", "numpy.concatenate of 1-D arrays / a one-element list",
+               "numpy.argsort(kind='mergesort'): a permutation that sorts (witness form with ghost inverse); audited",
+               "integer-array gather a[idx]", "element-wise ufunc U as an uninterpreted function",
+               "callee contract remove_empty_intervals (proved: RunLengthArray.remove_empty_intervals/contract.*)",
+               "callee contract join_runs (proved: RunLengthArray.join_runs/contract.*)",
+               "numpy == within one dtype is symmetric and transitive (at the element terms of one ==-chain)"]
+
+    def extra_functions(self):
+        return ["RunLengthArray.__init__", "RunLengthArray.__len__"]
+
+    def setup(self, ctx):
+        from npstructures.runlengtharray import RunLengthArray
+        A = sym_rla(ctx, "fst")
+        B = sym_rla(ctx, "oth")
+        ctx.assume(A.n == B.n)
+        calls = {}
+        ctx.ghost["calls"] = calls
+        mf, mo = A.m, B.m
+        L = z3.simplify(mf + mo)
+
+        def pool_for_join_pre(x_):
+            re = calls["remove_empty"]
+            sx = re["src"](x_)
+            return [sx, sx + 1, re["rho"](sx), re["rho"](sx) + 1, re["k2"], re["k"]]
+        calls["pool_for_join_pre"] = pool_for_join_pre
+
+        def pool_for_join_pre_len():
+            # at least one run survives: the smallest sorted boundary is <= events[0] = 0 and the largest >= events[L-1] = N >= 1
+            ag = ctx.ghost["argsorts"][-1]
+            Z = z3.IntVal(0)
+            return [Z, z3.IntVal(1), L - 1, L, ag["inv"](Z), ag["inv"](L - 1), ag["perm"](Z), ag["perm"](L - 1), mf, mo, mf - 1, mo - 1, calls["remove_empty"]["k2"]]
+        calls["pool_for_join_pre_len"] = pool_for_join_pre_len
+
+        def after_remove_empty(re):
+            # the sorted boundaries are non-decreasing: the argsort contract itself (adjacent form)
+            ctx.assume_forall("sorted boundaries non-decreasing (argsort contract)",
+                              lambda y_: z3.Implies(z3.And(0 <= y_, y_ + 1 < L), re["E"](y_) <= re["E"](y_ + 1)))
+        calls["after_remove_empty"] = after_remove_empty
+        ctx.ghost["merge"] = (A, B, L)
+        return A, B, calls, L
+
+    def late_lemmas(self, ctx, kind, exc):
+        """exception paths: the failing check is contradicted from explicitly chosen instances (tight pools)"""
+        A, B, L = ctx.ghost["merge"]
+        mf, mo = A.m, B.m
+        Z, One = z3.IntVal(0), z3.IntVal(1)
+        ags = ctx.ghost.get("argsorts", [])
+        if isinstance(exc, IndexError):
+            w = ctx.ghost["forall_facts"][-1]["w"]
+            if not ags:
+                # values[searchsorted(events, needles, 'right') - 1]: every needle is < the last boundary, so the index is < #runs
+                pool = [w, w + 1, w + 2, mf, mo, mf - 1, mo - 1, Z, One]
+            else:
+                # values[args[:-1]]: the last concatenated boundary (N) is the unique maximum, so it is sorted last: perm(t) != L-1 for t < L-1
+                perm, inv = ags[-1]["perm"], ags[-1]["inv"]
+                j2 = perm(w + 1)
+                pool = [w, w + 1, perm(w), j2, inv(L - 1), L - 1, L, j2 - mf + 1, j2 - mf, mf, mo, Z, One, inv(j2)]
+            ctx.prove_then_assume("late.lemma: the index bounds check cannot fail", z3.BoolVal(False), pool=pool, kind="lemma")
+        elif isinstance(exc, AssertionError) and ags:
+            perm, inv = ags[-1]["perm"], ags[-1]["inv"]
+            re = ctx.ghost["calls"].get("remove_empty")
+            jr = ctx.ghost["calls"].get("join_runs")
+            pool = [Z, One, inv(Z), perm(Z), perm(Z) - mf + 1, perm(Z) - mf, mf, mo, L - 1, L]
+            if re is not None:
+                ctx.prove_then_assume("late.lemma: the smallest sorted boundary is 0", re["E"](Z) == 0, pool=pool, kind="lemma")
+            if jr is not None:
+                ffs = ctx.ghost.get("forall_facts", [])
+                w = ffs[-1]["w"] if ffs else Z
+                ctx.prove_then_assume("late.lemma: the constructor's assertions cannot fail", z3.BoolVal(False), kind="lemma",
+                                      pool=[Z, One, w, w + 1, w + 2, jr["k3"], jr["k3"] + 1, jr["k3"] - 1])
+
+    def run(self, ctx, kind):
+        from npstructures.runlengtharray import RunLengthArray
+        A, B, calls, L = self.setup(ctx)
+        mf, mo, F, O, fv, ov, N = A.m, B.m, A.E, B.E, A.V, B.V, A.n
+        ctx.add_index(mf, mf - 1, mo, mo - 1, L, L - 1, z3.IntVal(0), z3.IntVal(1))
+        old = RunLengthArray.__dict__["remove_empty_intervals"], RunLengthArray.__dict__["join_runs"]
+        RunLengthArray.remove_empty_intervals = staticmethod(_stub_remove_empty(calls))
+        RunLengthArray.join_runs = staticmethod(_stub_join_runs(calls))
+        try:
+            out = RunLengthArray._apply_binary_func(A.obj, B.obj, np.subtract)
+        finally:
+            RunLengthArray.remove_empty_intervals, RunLengthArray.join_runs = old
+        U = lambda x_, y_: apply_binary("subtract", x_, y_)
+        re, jr = calls["remove_empty"], calls["join_runs"]
+        Es, Vs, e1, v1, k2, rho = re["E"], re["V"], re["e2"].fn, re["v2"].fn, re["k2"], re["rho"]
+        e3, v3, k3, sigma, head = jr["e3"].fn, jr["v3"].fn, jr["k3"], jr["sigma"], jr["head"]
+        ag = ctx.ghost["argsorts"][-1]
+        perm, inv = ag["perm"], ag["inv"]
+        EQ = lambda p_, q_: apply_binary("equal", p_, q_)
+        Z = z3.IntVal(0)
+        ends = [Z, z3.IntVal(1), L - 1, L, inv(Z), inv(L - 1), perm(Z), perm(L - 1), mf, mo, mf - 1, mo - 1, k2, k3]
+        ctx.prove("post.result is built from join_runs' output", z3.BoolVal(out._events is jr["e3"] and out._values is jr["v3"]))
+        ctx.prove_then_assume("post.lemma: sorted boundaries run from 0 to N", z3.And(Es(Z) == 0, Es(L - 1) == N), pool=ends)
+        ctx.prove("post.length kept: events'[0] == 0 and events'[-1] == N", z3.And(e3(0) == 0, e3(k3) == N), pool=ends)
+        p, a, b = z3.Int("p"), z3.Int("a"), z3.Int("b")
+        ctx.skolem(z3.And(0 <= a, a < mf, F(a) <= p, p < F(a + 1), 0 <= b, b < mo, O(b) <= p, p < O(b + 1)))
+        # partition point of p among the sorted boundaries (induction on k with witness w)
+        w = z3.Function(fresh_name("w"), z3.IntSort(), z3.IntSort())
+        k = z3.Int("k")
+        P = lambda k_, wit: z3.Implies(z3.And(1 <= k_, k_ <= L - 1, Es(Z) <= p, p < Es(k_)), z3.And(0 <= wit, wit < k_, Es(wit) <= p, p < Es(wit + 1)))
+        ctx.prove("partition.base: k = 1", P(z3.IntVal(1), Z), pool=[Z, z3.IntVal(1)], live=[a, b])
+        wit = z3.If(p < Es(k), w(k), k)
+        ctx.prove("partition.step: P(k) => P(k+1) with witness w(k) if p < Es(k) else k", z3.Implies(z3.And(k >= 1, P(k, w(k))), P(k + 1, wit)),
+                  pool=[k, k + 1, w(k), w(k) + 1, Z], live=[a, b])
+        ctx.assume_forall("partition point (by the induction above)", lambda k_: P(k_, w(k_)))
+        t = w(L - 1)
+        j = perm(t)
+        ia = inv(a)
+        jb = z3.If(b == 0, Z, mf + b - 1)          # index of O(b) among the concatenated boundaries
+        ib = inv(jb)
+        r1 = rho(t)
+        t3 = sigma(r1)
+        h = head(r1)
+        ctx.prove_then_assume("post.lemma: p lies between two consecutive sorted boundaries t, t+1", z3.And(0 <= t, t < L - 1, Es(t) <= p, p < Es(t + 1)),
+                              pool=[L - 1, Z, a, a + 1, mf], live=[p, a, b])
+        ctx.prove_then_assume("post.lemma: the start of p's run in `first` is a boundary not after Es(t)", z3.And(ia <= t, F(a) <= Es(t)),
+                              pool=[a, ia, t, t + 1, mf], live=[p, a, b])
+        ctx.prove_then_assume("post.lemma: the start of p's run in `other` is a boundary not after Es(t)", z3.And(ib <= t, O(b) <= Es(t)),
+                              pool=[jb, ib, t, t + 1, b, b - 1, Z, mf], live=[p, a, b])
+        jo = j - mf
+        vpool = [t, j, a, a + 1, b, b + 1, Z, mf, mo, L - 1]
+        ctx.prove_then_assume("post.lemma: sorted boundary t is entry j = perm(t) < L-1 of the concatenated boundaries", z3.And(0 <= j, j < L - 1, inv(j) == t),
+                              pool=[t, t + 1, L - 1, inv(L - 1), perm(t + 1), j], live=[p, a, b])
+        ctx.prove_then_assume("post.lemma.case j == 0: both arrays start their first run there", z3.Implies(j == 0, z3.And(a == 0, b == 0)), pool=vpool, live=[p])
+        ctx.prove_then_assume("post.lemma.case 0 < j < len(first.runs): the boundary is first.events[j], so j == a and other's run there is b",
+                              z3.Implies(z3.And(0 < j, j < mf), z3.And(j == a, Vs(t) == U(fv(a), ov(b)))), pool=vpool + [j - 1, j + 1], live=[p])
+        ctx.prove_then_assume("post.lemma.case j >= len(first.runs): the boundary is other.events[j-mf+1], so that run is b and first's run there is a",
+                              z3.Implies(j >= mf, z3.And(jo + 1 == b, Vs(t) == U(fv(a), ov(b)))), pool=vpool + [jo, jo + 1, jo + 2], live=[p])
+        ctx.prove_then_assume("post.lemma: the value at sorted boundary t is U(first.values[a], other.values[b])", Vs(t) == U(fv(a), ov(b)), pool=[t, j, Z], live=[p, a, b])
+        small = [t, t + 1, r1, r1 + 1, t3, t3 + 1, h, k2, k3, L - 1]
+        ctx.prove_then_assume("post.lemma: run t survives remove_empty_intervals", z3.And(0 <= r1, r1 < k2, e1(r1) == Es(t), e1(r1 + 1) == Es(t + 1), v1(r1) == Vs(t)),
+                              pool=small, live=[p, a, b])
+        ctx.prove("post.position p lies in output run t3", z3.And(0 <= t3, t3 < k3, e3(t3) <= p, p < e3(t3 + 1)), pool=small, live=[a, b])
+        ctx.prove_then_assume("post.lemma: output run t3 carries the value of the chain head h <= r1", z3.And(v3(t3) == v1(h), 0 <= h, h <= r1), pool=small, live=[p, a, b])
+        jj = z3.Int("jj")
+        sim = lambda p_, q_: z3.Or(p_ == q_, EQ(p_, q_))
+        ctx.skolem(z3.And(h <= jj, jj < r1))
+        _eq_is_transitive_symmetric(ctx, [v1(h), v1(jj), v1(jj + 1)])
+        ctx.prove("chain.step: v1(h) ~ v1(j) => v1(h) ~ v1(j+1)", z3.Implies(sim(v1(h), v1(jj)), sim(v1(h), v1(jj + 1))), pool=small + [jj, jj + 1, jj - 1], live=[p, a, b])
+        ctx.assume_forall("chain (by induction on j; base j = h is reflexivity of ~)", lambda j_: z3.Implies(z3.And(h <= j_, j_ <= r1), sim(v1(h), v1(j_))))
+        ctx.prove("post.output value at p ~ U(first[p], other[p]) in operand order", sim(v3(t3), U(fv(a), ov(b))), pool=small, live=[p])
+        ctx.prove("post.operands not modified", z3.BoolVal(A.ev.buf.writes == 0 and A.va.buf.writes == 0 and B.ev.buf.writes == 0 and B.va.buf.writes == 0))
+
+    def concrete(self, case):
+        from npstructures import RunLengthArray
+        x, y = np.array(case["a"]), np.array(case["b"])
+        r = RunLengthArray._apply_binary_func(RunLengthArray.from_array(x), RunLengthArray.from_array(y), np.subtract)
+        ev, va = np.asarray(r._events), np.asarray(r._values)
+        if np.asarray(r).tolist() != (x - y).tolist() or not np.all(va[1:] != va[:-1]) or not np.all(np.diff(ev) > 0):
+            return {"msg": f"rla({case['a']}) - rla({case['b']}) = {np.asarray(r).tolist()} (events {ev.tolist()}, values {va.tolist()})", "sig": "wrong:rla-binary"}
+
+    def concretise(self, kind, model, ghost):
+        return {"a": [1, 1, 2, 2, 2, 5], "b": [3, 4, 4, 4, 6, 6]}
+
+    def bounded_cases(self, tier, seed):
+        import itertools
+        for nn in range(1, 5):
+            for x in itertools.product((0, 1, 3), repeat=nn):
+                for y in itertools.product((0, 2), repeat=nn):
+                    yield {"a": list(x), "b": list(y)}
